@@ -60,6 +60,11 @@ func runC01(c *Ctx) {
 			c.Res.Notes = append(c.Res.Notes, "replay unreadable")
 			return
 		}
+		var lg struct{ Case struct{ Leg string `json:"leg"` } `json:"case"` }
+		if json.Unmarshal(b, &lg) == nil && lg.Case.Leg == "own-package-binding" {
+			c01OwnPackage(c) // the leg is a fixed set of four projects
+			return
+		}
 		var rc struct{ Case c01RefsCase `json:"case"` }
 		if json.Unmarshal(b, &rc) == nil && rc.Case.Leg == "refs" {
 			c01Refs(c, rc.Case, true)
@@ -69,6 +74,7 @@ func runC01(c *Ctx) {
 		return
 	}
 	c01RefsLeg(c)
+	c01OwnPackage(c)
 	var cases []c01Case
 	files, _ := filepathGlob(verifRoot + "/harness/corpus/C01/*.json")
 	for _, f := range files {
